@@ -11,9 +11,18 @@ Tie: the Lean definitions translated from the SOURCE TEXT of the three parameter
   utils.py                             ensure_dict
 
 (Generated/PyCode.lean, rewritten by tools/py2lean.py on every run) equal the hand-written model
-`P2.decodeEcomax / decodeMixer / decodeThermo` (Model/DecodeParams.lean) for EVERY message, every natural
-offset, every instance and every `data` argument that is `None` or a dict — result, exception class,
+`P2.decodeEcomax / decodeMixer / decodeThermo` (Model/DecodeParams.lean) for EVERY message, every NATURAL
+offset, every instance and every `data` argument that is `None` or a string-keyed dict — result, exception class,
 returned offset and the `_offset` attribute left on the instance.
+
+Hypotheses, exactly (what is NOT covered): `off : Nat` (the translated code also runs with a negative offset; no theorem
+speaks about that); `dataOk data` (`None` or a `.dict`, i.e. all keys strings); the helpers `thermo_parameter_eq` /
+`thermo_parameters_eq` need `T ≠ 0` (at `T = 0` the translated helper answers `unsupported`: the prelude's `//` has no
+ZeroDivisionError — `decode` never calls it with 0); `thermo_decode_*` needs an instance with a `frame` attribute whose
+`handler` is `None` or a device rendered as a dict in which `thermostats_available` is absent or a natural number (the trusted
+`get_nowait` contract); a method returns `PyM (result × instance)`, so the instance after an EXCEPTION is not part of any
+statement ("`_offset` left on the instance" is about successful calls).
+`mixer_decode_closed` / `thermo_decode_closed` are the statements to read: their right-hand sides are closed (`blocksDictV`).
 
 The model works on remainders (`message[offset:]`); the code returns an absolute offset.  The theorems
 give the offset explicitly (`off + header + P2Len…`) and `decodeRun_rest` / `decodeBlocks_rest` show that
@@ -738,6 +747,49 @@ theorem thermo_dict (th : Option Nat) (m : List UInt8) (p : Option P2.Triple) (b
           exact dict_blocks bs' 0 (decodeBlocks_keys _ _ _ _ _ _ _ _ hb)
     · simp at h
 
+/-! ### the two decode theorems with a closed right-hand side -/
+
+/-- `mixer_decode_eq` with `dict(…)` evaluated: a decodable message ALWAYS gives `.ok`, the blocks keyed by mixer index in order -/
+theorem mixer_decode_closed (c : String) (ks : List String) (vs : List V) (msg : List UInt8) (off : Nat) (data : V)
+    (hd : dataOk data) :
+    PyCode.MixerParametersStructure_decode (.obj c ks vs) (.bytes msg) (.int (off : Int)) data
+      = match P2.decodeMixer (msg.drop off) with
+        | .error _ => .error .IndexError
+        | .ok (bs, _) =>
+          let o := off + 4 + (msg.getD (off + 3) 0).toNat * (3 * (msg.getD (off + 2) 0).toNat)
+          .ok (.tuple [merge1 data ["mixer_parameters"] [blocksDictV bs], .int (o : Int)], withOff c ks vs o) := by
+  rw [mixer_decode_eq c ks vs msg off data hd]
+  cases h : P2.decodeMixer (msg.drop off) with
+  | error e => rfl
+  | ok v =>
+    obtain ⟨bs, r⟩ := v
+    simp [mixer_dict _ _ _ h, Except.map]
+
+/-- `thermo_decode_eq` with `dict(…)` evaluated -/
+theorem thermo_decode_closed (c : String) (ks : List String) (vs : List V) (fc : String) (fks : List String) (fvs : List V)
+    (h : V) (thermostats : Option Nat) (msg : List UInt8) (off : Nat) (data : V) (hd : dataOk data)
+    (hf : lookup ks vs "frame" = some (.obj fc fks fvs)) (hh : lookup fks fvs "handler" = some h)
+    (hH : handlerIs h thermostats) :
+    PyCode.ThermostatParametersStructure_decode (.obj c ks vs) (.bytes msg) (.int (off : Int)) data
+      = match P2.decodeThermo thermostats (msg.drop off) with
+        | .error e => .error (errV e)
+        | .ok (.unavailable, _) =>
+          .ok (.tuple [merge1 data ["thermostat_parameters"] [.none], .int (off : Int)], .obj c ks vs)
+        | .ok (.val profile bs, _) =>
+          let s := (msg.getD (off + 1) 0).toNat
+          let n := (msg.getD (off + 2) 0).toNat
+          let o := off + 6 + thermostats.getD 0 * runLen P2.thermoSize (P2.thermoPer s n (thermostats.getD 0)) s
+          .ok (.tuple [merge1 data ["thermostat_profile", "thermostat_parameters"] [slotV profile, blocksDictV bs], .int (o : Int)],
+               withOff c ks vs o) := by
+  rw [thermo_decode_eq c ks vs fc fks fvs h thermostats msg off data hd hf hh hH]
+  cases hD : P2.decodeThermo thermostats (msg.drop off) with
+  | error e => rfl
+  | ok v =>
+    obtain ⟨tv, r⟩ := v
+    cases tv with
+    | unavailable => rfl
+    | val profile bs => simp [thermo_dict _ _ _ _ _ hD, Except.map]
+
 /-! ### non-vacuity -/
 
 /-- two slots from index 5, the second one a hole -/
@@ -764,5 +816,10 @@ example : (PyCode.ThermostatParametersStructure_decode
     = .ok (.tuple [.dict ["thermostat_profile", "thermostat_parameters"]
         [tripleV (1, 0, 5), .map [.int 0] [.list [.tuple [.int 0, tripleV (7, 0, 9)], .tuple [.int 1, tripleV (257, 2, 259)]]]],
         .int 15]) := rfl
+
+/-- the description table ends (15 entries): start index 14, two parameters asked for — `THERMOSTAT_PARAMETERS[15]` is an IndexError -/
+example : (PyCode.ThermostatParametersStructure_decode
+      (Py.mkobj "self" [("frame", Py.mkobj "F" [("handler", .dict ["thermostats_available"] [.int 1])])])
+      (.bytes [0, 14, 2, 1, 0, 5, 7, 0, 9, 1, 1, 2, 0, 3, 1]) (.int 0) .none).map (·.1) = .error .IndexError := rfl
 
 end PlumVerif.TieStructParams
